@@ -145,8 +145,14 @@ func (p *Pigeon) Tick() {
 	if !b.BCfg.NoFeeVals[p.V.Idx] {
 		fees, _ := app.TreasuryKeeper.GetRelayerFees(ctx)
 		found := false
+		want := 0
+		for _, id := range b.Order {
+			if !b.BCfg.NoFeeChains[id] {
+				want++
+			}
+		}
 		for _, f := range fees {
-			if f.ValAddress == val.String() && len(f.Fees) >= len(b.Order) {
+			if f.ValAddress == val.String() && len(f.Fees) >= want {
 				found = true
 			}
 		}
@@ -157,6 +163,9 @@ func (p *Pigeon) Tick() {
 			}
 			fs := &treasurytypes.RelayerFeeSetting{ValAddress: val.String()}
 			for _, id := range b.Order {
+				if b.BCfg.NoFeeChains[id] {
+					continue
+				}
 				fs.Fees = append(fs.Fees, treasurytypes.RelayerFeeSetting_FeeSetting{Multiplicator: math.LegacyMustNewDecFromStr(mult), ChainReferenceId: id})
 			}
 			p.send("relayerfee", &treasurytypes.MsgUpsertRelayerFee{Metadata: p.meta(), FeeSetting: fs})
